@@ -109,6 +109,7 @@ type metaOut struct {
 	Extra              map[string]interface{} `json:"extra,omitempty"`
 	ExtraViolations    []string               `json:"extra_violations,omitempty"`
 	ExecErrors         []string               `json:"exec_errors,omitempty"`
+	ReexecDiffered     int                    `json:"reexecutions_with_other_observables"`
 }
 
 func writeShard(outdir, prop, fam string, k int, header string, lits []string) (string, error) {
@@ -195,11 +196,34 @@ func runCases(args []string) {
 		meta.ShardIndex[name] = idxs[fam]
 		lits[fam], idxs[fam] = nil, nil
 	}
+	// Every input is executed three times against the real code.  The observables are canonical, so the three
+	// runs of a correct library agree; where the library's behaviour depends on something the input does not fix
+	// (Go map iteration order, what a pool hands out) a wrong answer may show in only some runs: a run whose
+	// observables differ from the first is evaluated as one more case.
+	noReexec := os.Getenv("VERIF_NO_REEXEC") != ""
+	var queue []json.RawMessage
+	reexec := map[string]string{}
 	for _, raw := range inputs {
+		queue = append(queue, raw)
+	}
+	for qi := 0; qi < len(queue); qi++ {
+		raw := queue[qi]
 		res, err := pd.exec(raw)
 		if err != nil {
 			meta.ExecErrors = append(meta.ExecErrors, err.Error())
 			continue
+		}
+		if qi < len(inputs) && !noReexec {
+			for k := 0; k < 2; k++ {
+				if again, e2 := pd.exec(raw); e2 == nil && again.Coq != res.Coq {
+					meta.ReexecDiffered++
+					reexec[string(raw)] = again.Coq
+					queue = append(queue, raw)
+					break
+				}
+			}
+		} else if lit, ok := reexec[string(raw)]; ok && qi >= len(inputs) {
+			res.Coq = lit // the differing observables recorded above (a further run need not reproduce them)
 		}
 		inF.Write(raw)
 		inF.Write([]byte("\n"))
